@@ -140,8 +140,8 @@ impl Property for C15Prop {
             let target_attr = match dest.as_str() {
                 "self" => String::new(),
                 "internal" => " target=\"#_internal\"".into(),
-                "parent" => " target=\"#_parent\"".into(),
-                "kid" => " target=\"#_@KID@\"".into(),
+                "parent" | "parent2" => " target=\"#_parent\"".into(),
+                "kid" | "kid2" => " target=\"#_@KID@\"".into(),
                 d => {
                     let id: u32 = base - 1 + d.trim_start_matches('p').parse::<u32>().unwrap_or(1);
                     if rng.chance(1, 2) {
@@ -188,6 +188,29 @@ impl Property for C15Prop {
             docs.push(DocSrc { name: role.clone(), xml: peer_doc(role, &ss, if k == m - 1 { child_xml.as_deref() } else { None }, false), via_rfsm: false, model: None });
             all.extend(ss);
         }
+        // a second family: one more root session (started by the driver after the peers, nobody addresses it by a
+        // literal id) that invokes a child under the SAME invoke id and talks to it through the same relative
+        // target '#_<invokeid>': what '#_<invokeid>' and '#_parent' mean depends on who sends
+        let two_fam = with_child && rng.chance(1, 2);
+        if two_fam {
+            let mut cs = Vec::new();
+            for _ in 0..rng.range(1, 2) {
+                cs.push(mk(rng, "child2", &["parent2", "self", "internal"]));
+            }
+            let child2 = peer_doc("child2", &cs, None, true).replace('\n', "");
+            all.extend(cs);
+            let mut allowed: Vec<&str> = vec!["kid2", "kid2", "kid2", "self"];
+            for r in &roles {
+                allowed.push(r.as_str());
+            }
+            let mut ss = Vec::new();
+            for _ in 0..rng.range(1, 3) {
+                ss.push(mk(rng, "fam2", &allowed));
+            }
+            docs.push(DocSrc { name: "fam2".into(), xml: peer_doc("fam2", &ss, Some(&child2), false), via_rfsm: false, model: None });
+            all.extend(ss);
+        }
+        let f2 = two_fam as usize;
         // sessions started by host tasks while the invoking peer starts its children: concurrent start_fsm
         let nlate = if late { rng.range(1, 2) as usize } else { 0 };
         for l in 0..nlate {
@@ -205,17 +228,17 @@ impl Property for C15Prop {
         for d in docs.iter_mut() {
             d.xml = d.xml.replace("@KID@", kid_id);
         }
-        let mut script: Vec<Step> = (0..m).map(|d| Step::Start { doc: d }).collect();
+        let mut script: Vec<Step> = (0..m + f2).map(|d| Step::Start { doc: d }).collect();
         // triggers: the driver and a producer fire the k.<n> events concurrently
         let mut prod: Vec<PStep> = Vec::new();
         let mut starters: Vec<Vec<PStep>> = Vec::new();
         for l in 0..nlate {
-            starters.push(vec![PStep::Start { doc: m + l }]);
+            starters.push(vec![PStep::Start { doc: m + f2 + l }]);
         }
         let mut driver_sends: Vec<Step> = Vec::new();
         for sp in &all {
-            if sp.from.starts_with('p') {
-                let sess: usize = sp.from.trim_start_matches('p').parse::<usize>().unwrap() - 1;
+            if sp.from.starts_with('p') || sp.from == "fam2" {
+                let sess: usize = if sp.from == "fam2" { m } else { sp.from.trim_start_matches('p').parse::<usize>().unwrap() - 1 };
                 let ev = EvSpec::simple(&format!("k.{}", sp.n));
                 if rng.chance(1, 2) {
                     prod.push(PStep::Send { sess, ev });
@@ -240,6 +263,9 @@ impl Property for C15Prop {
         notes.insert("m".into(), m.to_string());
         notes.insert("kid_id".into(), kid_id.to_string());
         notes.insert("base".into(), base.to_string());
+        if two_fam {
+            notes.insert("two_fam".into(), "1".into());
+        }
         for sp in &all {
             notes.insert(format!("send.{}", sp.n), format!("{}|{}|{}|{}|{}", sp.from, sp.dest, sp.payload, sp.with_id, if sp.target_attr.contains("targetexpr") { "expr" } else { "lit" }));
         }
@@ -277,8 +303,9 @@ impl Property for C15Prop {
         let roots: BTreeSet<u32> = v.out.root_sessions.iter().copied().collect();
         let all_sessions: Vec<u32> = v.rec.session_task.keys().copied().collect();
         let mut kid: Option<u32> = None;
+        let two_fam = v.sc.notes.contains_key("two_fam");
         for s in &all_sessions {
-            if !roots.contains(s) {
+            if !roots.contains(s) && !two_fam {
                 // the 'kid' child marks sends / is the one that executes content; the mini child uses the null datamodel
                 let has_marks = v.log.iter().any(|r| r.session == *s && matches!(r.kind, RecKind::Mark { .. }));
                 let is_child_doc = v.log.iter().any(|r| r.session == *s && matches!(&r.kind, RecKind::Enter { name, .. } if name == "run"));
@@ -306,6 +333,17 @@ impl Property for C15Prop {
                     if let Some(n) = args.get(1).and_then(|s| s.parse::<usize>().ok()) {
                         executed.insert(n, r.session);
                         executed_seq.insert(n, r.seq);
+                    }
+                }
+            }
+        }
+        if two_fam {
+            // two invoked children run the same kind of document: each is known by the sends it executed
+            for (n, sid) in &executed {
+                if let Some(note) = v.sc.notes.get(&format!("send.{}", n)) {
+                    let from = note.split('|').next().unwrap_or("");
+                    if (from == "child" || from == "child2") && !roots.contains(sid) {
+                        role_sid.insert(from.to_string(), *sid);
                     }
                 }
             }
@@ -346,12 +384,18 @@ impl Property for C15Prop {
                         "self" => Some(*from_sid),
                         "parent" => role_sid.get(&format!("p{}", m)).copied(),
                         "kid" => role_sid.get("child").copied(),
+                        "parent2" => role_sid.get("fam2").copied(),
+                        "kid2" => role_sid.get("child2").copied(),
                         d => role_sid.get(d).copied(),
                     };
                     match dest {
                         "self" => probes.hit("target:self"),
-                        "parent" => probes.hit("target:parent"),
+                        "parent" | "parent2" => probes.hit("target:parent"),
                         "kid" => probes.hit("target:invokeid"),
+                        "kid2" => {
+                            probes.hit("target:invokeid");
+                            probes.hit("target:invokeid-of-second-family");
+                        }
                         _ => {
                             if form == "expr" {
                                 probes.hit("target:targetexpr")
@@ -522,8 +566,8 @@ impl Property for C15Prop {
 fn dest_class(d: &str) -> &'static str {
     match d {
         "self" => "self",
-        "parent" => "parent",
-        "kid" => "invokeid",
+        "parent" | "parent2" => "parent",
+        "kid" | "kid2" => "invokeid",
         _ => "session",
     }
 }
